@@ -390,14 +390,14 @@ def _dirsuffix(ck: Checker) -> None:
     prog = ck.prog
     dg = prog.func("hashfile.tree", "Tree.digest")
     g = ck.cfg(dg)
-    from .tree_common import digest_model
+    from .tree_common import digest_model, is_metafree_as_bytes
 
     dm = digest_model(ck)
     ck.floor("C01.dirsuffix", len(dm.hcalls), 1, "hash_file calls in Tree.digest")
     hn, hc = dm.hn, dm.hc
     hp = norm(dm.path) if dm.path is not None else None
     wrote = [(n, c, a1) for n, c, a0, a1 in dm.pipes if norm(a0) == hp]
-    ok = bool(wrote) and all(norm(a1) == "self.as_bytes()" for _n, _c, a1 in wrote) and all(avoiding_path(g, hn.id, lambda x, n=n: x.id == n.id) is None for n, _c, _a in wrote)
+    ok = bool(wrote) and all(is_metafree_as_bytes(ck, a1) for _n, _c, a1 in wrote) and all(avoiding_path(g, hn.id, lambda x, n=n: x.id == n.id) is None for n, _c, _a in wrote)
     ck.require(ok, "C01.dirsuffix", dg, hn, "the hashed scratch file holds exactly self.as_bytes() (no metadata)", f"the bytes hashed for the directory id are not self.as_bytes(): {[norm(a1) for _n, _c, a1 in wrote]}", construct="digest / hashed bytes")
     sfx = [n for n, _ok in dm.suffix_nodes]
     ck.require(dm.suffix_once, "C01.dirsuffix", dg, sfx[0] if sfx else dg.node, "the '.dir' suffix is appended exactly once on every path", "the directory suffix is not appended exactly once to the digest", construct="hash_info.value += '.dir'")
